@@ -77,6 +77,7 @@ def register(reg, prop="C26"):
 
     def run_model(I, impl):
         I.ctx.ghost["run_calls"] = I.ctx.ghost.get("run_calls", 0) + 1
+        I.ctx.ghost["run_autosave_file"] = impl.fields["autosave_file"]
         I.ctx.ghost["run_result"] = impl.fields["results"]
         return impl.fields["results"]
 
@@ -99,6 +100,9 @@ def register(reg, prop="C26"):
     # ---- resume: the same post-processing ---------------------------------------------------------
     def pickle_load(I, f):
         o = impl_obj(I)
+        # the snapshot carries the path the crashed process wrote to; the file may have been moved, renamed or copied
+        # since, so it need not be the path resume() was given
+        o.fields["autosave_file"] = autosave.PathV("recorded-by-the-crashed-process.dat")
         I.ctx.ghost["impl"] = o
         return o
 
@@ -116,8 +120,13 @@ def register(reg, prop="C26"):
             "was_permuted()", "permute_input() is impl_results()",
             "permuted_with() == loaded_impl().config.optimize_qubit_ordering",
             "result is permute_output()",
+            # the continued run advertises -- and on completion removes -- the file it was resumed from, not the path
+            # recorded in the snapshot (seed C26-e)
+            "same_path(run_autosave_file(), autosave_file)",
         ],
     ))
+    G["run_autosave_file"] = lambda I: I.ctx.ghost["run_autosave_file"]
+    G["same_path"] = lambda I, a, b: isinstance(a, autosave.PathV) and isinstance(b, autosave.PathV) and a.name == b.name
     G["loaded_impl"] = lambda I: I.ctx.ghost["impl"]
     reg.external["pickle.load"] = pickle_load
 
